@@ -94,6 +94,15 @@ Section C04.
     v_forward r_filter (Some cmp) ro last evs ++
     (if cmp (holds r_filter cmp ro last evs) (Some v) then [] else [mkVC v (ve_time e) false false]).
   Proof. intros. apply equivalence_delivery. Qed.
+
+  (* PullID: a single-item subscription sees only that item's changes, and ends exactly when a
+     change removes the item *)
+  Theorem C04_pull_id_ignores_other_ids : forall id (cs : list (cchange M)),
+    pull_id_from id cs = pull_id_from id (filter (for_id id) cs).
+  Proof. intros. apply pull_id_ignores_other_ids. Qed.
+  Theorem C04_pull_id_closed_iff_removed : forall id (cs : list (cchange M)),
+    snd (pull_id_from id cs) = existsb (fun c => for_id id c && ends c) cs.
+  Proof. intros. apply pull_id_closed_iff. Qed.
 End C04.
 
 Print Assumptions C04_one_event_per_effective_write.
@@ -105,6 +114,8 @@ Print Assumptions C04_last_seed_flag.
 Print Assumptions C04_updates_only_no_seed.
 Print Assumptions C04_value_stream_exact.
 Print Assumptions C04_equivalence_suppresses_exactly_equivalent.
+Print Assumptions C04_pull_id_ignores_other_ids.
+Print Assumptions C04_pull_id_closed_iff_removed.
 
 (* the pinned commit read the clock a second time for the event: event time <> stored time *)
 Theorem C04_event_time_v0_refuted :
